@@ -17,7 +17,11 @@
 //     precommits  id.blk.num.kind,...   kind: v signed for (precommit, round, setid) | f0..f3 forged bytes
 //                 | r signed for round+1 | s signed for setid+1 | o signed for number+1
 //     perms       permutations of the precommit list (`;` separated); the identity order runs first
+//   pl <stage> <hash: 32 bytes hex> <number> <round> <setid>
+//     the bytes a vote signature is made over: built by hand (4- and 8-byte numbers; the encoder this harness
+//     signs and verifies with) and by the implementation's NewLocalizedPayload at uint32 and uint64
 // observables:
+//   pl -> <hand 32> <NewLocalizedPayload uint32> <hand 64> <NewLocalizedPayload uint64>     (hex)
 //   <o1;o2;..> <b1,b2,..|->
 //     o_k = <r32>/<r64> for order k, r: ok | decode | target | commit | sig | ancestry | unused | other | panic | novoters
 //     b_i = <verdict32><verdict64>:<first 8 bytes of the 64-bit-width signature> for precommit i of the identity order,
@@ -26,6 +30,7 @@ package grandpa
 
 import (
 	stded25519 "crypto/ed25519"
+	"encoding/binary"
 	"encoding/hex"
 	"errors"
 	"fmt"
@@ -147,8 +152,11 @@ func c19Headers[N runtime.Number](t c19Tree, salt uint64) ([]*generic.Header[N, 
 
 func c19SignJ[N runtime.Number](p c19JPc, target hash.H256, round, setID uint64) (sig ced25519.Signature, verdict bool) {
 	pc := grandpa.Precommit[hash.H256, N]{TargetHash: target, TargetNumber: N(p.num)}
+	// hand-built bytes (c19HandPayload), not the implementation's encoder: a "v" signature is accepted by the
+	// implementation only if NewLocalizedPayload yields byte for byte the same message
 	payload := func(pc grandpa.Precommit[hash.H256, N], round, setID uint64) []byte {
-		return primitives.NewLocalizedPayload(primitives.RoundNumber(round), primitives.SetID(setID), grandpa.NewMessage(pc))
+		var n N
+		return c19HandPayload(binary.Size(n), 1, []byte(pc.TargetHash), uint64(pc.TargetNumber), round, setID)
 	}
 	pair := c19Pair(p.id)
 	switch {
@@ -167,6 +175,50 @@ func c19SignJ[N runtime.Number](p c19JPc, target hash.H256, round, setID uint64)
 	pub := c19Pub(p.id)
 	verdict = stded25519.Verify(stded25519.PublicKey(pub[:]), payload(pc, round, setID), sig[:])
 	return sig, verdict
+}
+
+// c19HandPayload: stage byte, hash, number (nw bytes LE), round (8 LE), set id (8 LE)
+func c19HandPayload(nw int, stage byte, h []byte, num, round, setID uint64) []byte {
+	msg := append([]byte{stage}, h...)
+	var b [8]byte
+	binary.LittleEndian.PutUint64(b[:], num)
+	msg = append(msg, b[:nw]...)
+	msg = binary.LittleEndian.AppendUint64(msg, round)
+	msg = binary.LittleEndian.AppendUint64(msg, setID)
+	return msg
+}
+
+func c19ImplPayload[N runtime.Number](stage uint64, h hash.H256, num, round, setID uint64) (out string) {
+	defer func() {
+		if r := recover(); r != nil {
+			out = "panic"
+		}
+	}()
+	var msg any
+	switch stage {
+	case 0:
+		msg = grandpa.NewMessage(grandpa.Prevote[hash.H256, N]{TargetHash: h, TargetNumber: N(num)})
+	case 1:
+		msg = grandpa.NewMessage(grandpa.Precommit[hash.H256, N]{TargetHash: h, TargetNumber: N(num)})
+	default:
+		msg = grandpa.NewMessage(grandpa.PrimaryPropose[hash.H256, N]{TargetHash: h, TargetNumber: N(num)})
+	}
+	return hex.EncodeToString(primitives.NewLocalizedPayload(primitives.RoundNumber(round), primitives.SetID(setID), msg))
+}
+
+func c19RunPayload(f []string) string {
+	if len(f) != 6 {
+		return "err:badinput"
+	}
+	hb, err := hex.DecodeString(f[2])
+	if err != nil || len(hb) != 32 {
+		return "err:badinput"
+	}
+	stage, num, round, setID := vu.UnX(f[1]), vu.UnX(f[3]), vu.UnX(f[4]), vu.UnX(f[5])
+	return hex.EncodeToString(c19HandPayload(4, byte(stage), hb, num&0xffffffff, round, setID)) + " " +
+		c19ImplPayload[uint32](stage, hash.H256(string(hb)), num&0xffffffff, round, setID) + " " +
+		hex.EncodeToString(c19HandPayload(8, byte(stage), hb, num, round, setID)) + " " +
+		c19ImplPayload[uint64](stage, hash.H256(string(hb)), num, round, setID)
 }
 
 func c19ClassJ(err error) string {
@@ -230,6 +282,9 @@ func c19VerifyJ[N runtime.Number](c c19JCase, voters *grandpa.VoterSet[string], 
 
 func c19RunJ(in string) string {
 	f := strings.Split(in, " ")
+	if f[0] == "pl" {
+		return c19RunPayload(f)
+	}
 	if f[0] != "vj" {
 		return "err:badinput"
 	}
@@ -266,6 +321,18 @@ func c19RunJ(in string) string {
 
 func c19GenJ(r *vu.RNG, n int, emit func(string)) {
 	for i := 0; i < n; i++ {
+		if i%40 == 39 { // the signed bytes: both encoders against the Coq definition
+			edge := []uint64{0, 1, 0xff, 0x100, 0xffffffff, 0x100000000, ^uint64(0)}
+			pick := func() uint64 {
+				if r.Chance(1, 2) {
+					return edge[r.Intn(len(edge))]
+				}
+				return r.U64() >> uint(r.Intn(64))
+			}
+			emit(fmt.Sprintf("pl %s %s %s %s %s", vu.X(uint64(r.Intn(3))), hex.EncodeToString(r.Bytes(32)),
+				vu.X(pick()), vu.X(pick()), vu.X(pick())))
+			continue
+		}
 		if i%6 == 5 { // the nested-fork family, headers salted
 			c := c19GenNested(r)
 			pcs := c.pcString(func(int) string { return "v" })
